@@ -252,6 +252,10 @@ Proof.
   now apply negb_true_iff in H.
 Qed.
 
+Ltac clean_lit :=
+  unfold clean; cbn [fst snd]; split; [discriminate|split;
+    [repeat (constructor; [split; discriminate|]); constructor|split; reflexivity]].
+
 Lemma tck_parse_written count items h data :
   0 <= count -> wf_items items -> tck_header count items = Ok h ->
   tck_parse_header (h ++ data) = Ok (false, zlen h).
@@ -275,9 +279,9 @@ Proof.
     unfold lines_bytes, fkv, kv_line. cbn [flat_map fst snd app]. rewrite <- !app_assoc. reflexivity. }
   assert (Wkvs : Forall wf_kv (kvs ++ [fkv])).
   { apply Forall_app. split.
-    - unfold kvs. constructor; [split; [vm_compute; intuition discriminate|now apply pad10_clean]|].
-      constructor; [split; vm_compute; intuition discriminate|]. exact Hwf.
-    - constructor; [|constructor]. split; [vm_compute; intuition discriminate|now apply file_value_clean]. }
+    - unfold kvs. constructor; [split; [clean_lit|now apply pad10_clean]|].
+      constructor; [split; clean_lit|]. exact Hwf.
+    - constructor; [|constructor]. split; [clean_lit|now apply file_value_clean]. }
   rewrite Ebody. unfold tck_parse_header. rewrite takez_eq, dropz_eq.
   rewrite take_app_exact. replace (list_eqb tck_magic tck_magic) with true by (symmetry; now apply list_eqb_spec).
   cbn [negb].
@@ -287,7 +291,8 @@ Proof.
   rewrite (drop_app_len (zlen tck_magic + 1)) by (rewrite zlen_app; reflexivity).
   set (body := lines_bytes (kvs ++ [fkv]) ++ S_END ++ 10 :: data).
   assert (Hfuel : (length (kvs ++ [fkv]) <= length body)%nat).
-  { unfold body. rewrite app_length. pose proof (lines_bytes_length (kvs ++ [fkv])). lia. }
+  { pose proof (lines_bytes_length (kvs ++ [fkv])) as Q. unfold body.
+    rewrite (app_length (lines_bytes (kvs ++ [fkv]))). lia. }
   replace (S (length body)) with (length body + 1)%nat by lia.
   destruct (loop_kv_lines (kvs ++ [fkv]) (length body) (S_END ++ 10 :: data) None [] 0 Wkvs Hfuel) as [key' El].
   unfold body at 2. rewrite El.
@@ -316,7 +321,7 @@ Proof.
     rewrite ws_split_nows; [reflexivity|now apply digits_nows|exact Hne]. }
   rewrite Ews. change (list_eqb [46] [46]) with true. cbn [negb].
   rewrite parse_int_dec_str by exact HN0.
-  change (ends_with S_BE S_Float32LE) with false. rewrite HN. reflexivity.
+  change (ends_with S_BE S_Float32LE) with false. reflexivity.
 Qed.
 
 (* end to end: what TckFile.save writes, TckFile.load reads back exactly, for every buffer size *)
@@ -331,4 +336,111 @@ Proof.
   pose proof (zlen_nonneg h). replace (zlen h <? 0) with false by lia.
   rewrite dropz_eq, drop_app_exact.
   destruct (tck_bufsize_ok b Hb) as [B1 B2]. now apply tck_data_roundtrip.
+Qed.
+
+(* ------------------------------------------------------------------ the count field has a fixed width *)
+Lemma count_colons_app a b : count_colons (a ++ b) = count_colons a + count_colons b.
+Proof. unfold count_colons. rewrite filter_app, zlen_app. reflexivity. Qed.
+
+Lemma count_colons_digits l : Forall is_digit l -> count_colons l = 0.
+Proof.
+  induction l as [|c l IH]; intros H; [reflexivity|]. inversion H as [|? ? Hc Hl]; subst.
+  unfold count_colons in *. cbn [filter]. unfold is_digit in Hc. replace (c =? 58) with false by lia. now apply IH.
+Qed.
+
+Lemma pad10_digits n : 0 <= n -> Forall is_digit (pad10 (dec_str n)).
+Proof.
+  intros H. destruct (dec_str_digits n H) as [Hd _]. unfold pad10. apply Forall_app. split; [|exact Hd].
+  apply Forall_forall. intros x Hx. apply repeat_spec in Hx. subst. unfold is_digit. lia.
+Qed.
+
+Lemma ndigits_le10 n : 0 <= n < 10 ^ 10 -> ndigits n <= 10.
+Proof.
+  intros [H0 H1]. destruct (Z.eq_dec n 0) as [->|Hn]; [vm_compute; discriminate|].
+  destruct (ndigits_spec n ltac:(lia)) as (Hd & Hlo & _).
+  destruct (Z.le_gt_cases (ndigits n) 10); [assumption|].
+  pose proof (pow10_mono 10 (ndigits n - 1) ltac:(lia)). lia.
+Qed.
+
+Lemma zlen_pad10 n : 0 <= n < 10 ^ 10 -> zlen (pad10 (dec_str n)) = 10.
+Proof.
+  intros H. pose proof (ndigits_le10 n H) as L. unfold ndigits, zlen in L. unfold pad10, zlen.
+  rewrite app_length, repeat_length. lia.
+Qed.
+
+Lemma join_nl_cons l r : r <> [] -> join_nl (l :: r) = l ++ 10 :: join_nl r.
+Proof. destruct r; [congruence|reflexivity]. Qed.
+
+Lemma tck_header_count_indep c1 c2 items h1 :
+  0 <= c1 < 10 ^ 10 -> 0 <= c2 < 10 ^ 10 -> tck_header c1 items = Ok h1 ->
+  exists h2, tck_header c2 items = Ok h2 /\ zlen h2 = zlen h1.
+Proof.
+  intros H1 H2 E.
+  assert (Q : forall c, 0 <= c < 10 ^ 10 ->
+    let lines := tck_lines c items in
+    count_colons (join_nl lines) = 1 + count_colons (join_nl (tl lines))
+    /\ zlen lines = zlen (tck_lines 0 items)
+    /\ zlen (tck_magic ++ 10 :: join_nl lines) = 14 + 17 + 1 + zlen (join_nl (tl lines))
+    /\ tl lines = tl (tck_lines 0 items)).
+  { intros c Hc. unfold tck_lines. cbv zeta. cbn [tl].
+    set (rest := S_datatype_Float32LE :: map _ _).
+    assert (Hr : rest <> []) by (unfold rest; discriminate).
+    rewrite (join_nl_cons _ rest Hr).
+    rewrite count_colons_app, count_colons_app, (count_colons_digits (pad10 _)) by (apply pad10_digits; lia).
+    change (count_colons S_count_c) with 1.
+    assert (Ec : count_colons (10 :: join_nl rest) = count_colons (join_nl rest)) by reflexivity.
+    rewrite Ec. split; [lia|]. split; [reflexivity|]. split; [|reflexivity].
+    rewrite zlen_app, zlen_cons, zlen_app, zlen_app, zlen_cons, zlen_pad10 by lia.
+    change (zlen tck_magic) with 13. change (zlen S_count_c) with 7. lia. }
+  destruct (Q c1 H1) as (A1 & B1 & C1 & D1). destruct (Q c2 H2) as (A2 & B2 & C2 & D2). cbv zeta in *.
+  unfold tck_header in E |- *. rewrite A2, B2, D2. rewrite A1, B1, D1 in E.
+  destruct (_ >? _); [discriminate|]. eexists. split; [reflexivity|].
+  apply (f_equal (fun r => match r with Ok a => a | Err _ => [] end)) in E. cbv beta iota in E. rewrite <- E.
+  set (o1 := tck_magic ++ 10 :: join_nl (tck_lines c1 items)) in *.
+  set (o2 := tck_magic ++ 10 :: join_nl (tck_lines c2 items)) in *.
+  assert (Eo : zlen o2 = zlen o1) by (rewrite C1, C2, D1, D2; reflexivity).
+  rewrite !zlen_app, !zlen_cons, !zlen_app, !zlen_dec_str, Eo. reflexivity.
+Qed.
+
+Lemma tck_file_roundtrip' count0 items sl b :
+  0 <= count0 < 10 ^ 10 -> zlen sl < 10 ^ 10 -> wf_items items -> Forall wf_stream sl -> 0 <= b ->
+  (exists h0, tck_header count0 items = Ok h0) ->
+  exists f h, tck_header (zlen sl) items = Ok h /\ tck_save count0 items sl = Ok f /\ f = h ++ tck_data sl
+              /\ tck_load b f = Ok sl.
+Proof.
+  intros Hc Hn Hwf Hsl Hb [h0 E0]. pose proof (zlen_nonneg sl).
+  destruct (tck_header_count_indep count0 (zlen sl) items h0 Hc ltac:(lia) E0) as (h & E & L).
+  destruct (tck_file_roundtrip count0 items sl b h0 h ltac:(lia) Hwf Hsl Hb E0 E ltac:(lia)) as (f & F1 & F2 & F3).
+  exists f, h. repeat split; assumption.
+Qed.
+
+(* the structure of a written header, for reuse (C08) *)
+Lemma tck_header_structure count items h :
+  0 <= count -> wf_items items -> tck_header count items = Ok h ->
+  exists kvs,
+    h = tck_magic ++ 10 :: lines_bytes (kvs ++ [(S_file, 46 :: 32 :: dec_str (zlen h))]) ++ S_END ++ [10]
+    /\ Forall wf_kv (kvs ++ [(S_file, 46 :: 32 :: dec_str (zlen h))])
+    /\ Forall (fun kv => fst kv <> S_file) kvs.
+Proof.
+  intros Hc Hwf Eh.
+  pose proof (tck_header_form _ _ _ Eh) as Ef.
+  set (N := zlen h) in *.
+  assert (HN0 : 0 <= N) by apply zlen_nonneg.
+  set (kvs := (K_count, pad10 (dec_str count)) :: (S_datatype, S_Float32LE) :: kept items).
+  set (fkv := (S_file, 46 :: 32 :: dec_str N)).
+  exists kvs.
+  assert (Elines : tck_lines count items = map kv_line kvs).
+  { unfold tck_lines, kvs. cbn [map]. f_equal. }
+  split; [|split].
+  - rewrite Ef at 1. rewrite Elines. rewrite <- !app_assoc. f_equal. cbn [app]. f_equal.
+    destruct kvs as [|kv0 kvs0] eqn:Ek; [discriminate|]. cbn [map].
+    rewrite join_nl_lines. change (kv_line kv0 :: map kv_line kvs0) with (map kv_line (kv0 :: kvs0)).
+    rewrite lines_bytes_map, lines_bytes_app. rewrite <- !app_assoc. f_equal.
+    unfold lines_bytes, kv_line. cbn [flat_map fst snd app]. rewrite <- !app_assoc. reflexivity.
+  - apply Forall_app. split.
+    + unfold kvs. constructor; [split; [clean_lit|now apply pad10_clean]|].
+      constructor; [split; clean_lit|]. exact Hwf.
+    + constructor; [|constructor]. split; [clean_lit|now apply file_value_clean].
+  - unfold kvs. constructor; [vm_compute; discriminate|]. constructor; [vm_compute; discriminate|].
+    eapply Forall_impl; [|apply kept_not_excluded]. intros kv Hk. apply excluded_neq; [exact Hk|apply exclude_has].
 Qed.
